@@ -93,7 +93,7 @@ Print Assumptions C23_seq_consecutive_run.
 
 (* ---- the glue (any packetizer P/encode): a unit is re-encoded iff an encoder existed or some incoming payload
    exceeds the maximum ---- *)
-Theorem C23_oversize_trigger : forall (P : Type) (encode : enc -> P -> res (list packet * enc) + unit)
+Theorem C23_oversize_trigger : forall (P : Type) (encode : enc -> P -> res (list packet * enc) + enc)
     max avail g pts inp decerr deliv g' out,
   glue_write P encode max avail g pts inp decerr deliv = GOk g' out ->
   has_enc g' = has_enc g || existsb (oversized max) inp.
@@ -103,7 +103,7 @@ Print Assumptions C23_oversize_trigger.
 (* which encoder, which offset, which packets: either nothing is touched (no encoder, nothing oversized), or the
    unit is encoded by the existing encoder / by one created with the SSRC and sequence number of the first
    oversized packet and offset = its timestamp - uint32(PTS), and every generated packet is stamped *)
-Theorem C23_glue_cases : forall (P : Type) (encode : enc -> P -> res (list packet * enc) + unit)
+Theorem C23_glue_cases : forall (P : Type) (encode : enc -> P -> res (list packet * enc) + enc)
     max avail g pts inp decerr deliv g' out,
   glue_write P encode max avail g pts inp decerr deliv = GOk g' out ->
   (g.(g_enc) = None /\ g' = g /\ out = inp /\ first_oversized max inp = None)
@@ -115,14 +115,14 @@ Proof. exact glue_write_inv. Qed.
 Print Assumptions C23_glue_cases.
 
 (* forwarded packets are never oversized; an oversized packet of a format without encoder is dropped *)
-Theorem C23_passthrough : forall (P : Type) (encode : enc -> P -> res (list packet * enc) + unit)
+Theorem C23_passthrough : forall (P : Type) (encode : enc -> P -> res (list packet * enc) + enc)
     max avail g pts inp decerr deliv g' out,
   glue_write P encode max avail g pts inp decerr deliv = GOk g' out -> has_enc g' = false ->
   out = inp /\ g' = g /\ forallb (fun p => negb (oversized max p)) out = true.
 Proof. exact glue_passthrough. Qed.
 Print Assumptions C23_passthrough.
 
-Theorem C23_no_encoder_drops : forall (P : Type) (encode : enc -> P -> res (list packet * enc) + unit)
+Theorem C23_no_encoder_drops : forall (P : Type) (encode : enc -> P -> res (list packet * enc) + enc)
     max g pts inp deliv pkt,
   g.(g_enc) = None -> first_oversized max inp = Some pkt ->
   glue_write P encode max false g pts inp false deliv = GErr g.
@@ -214,7 +214,7 @@ Proof. vm_compute. repeat split; reflexivity. Qed.
 (* ---- the generic glue theorems (any payload type P, any encoder honouring the contract) ---- *)
 
 (* rtpTimeOffset: unchanged once an encoder exists; at creation = oversized packet's timestamp - uint32(PTS) *)
-Theorem C23_glue_offset : forall (P : Type) (encode : enc -> P -> res (list packet * enc) + unit)
+Theorem C23_glue_offset : forall (P : Type) (encode : enc -> P -> res (list packet * enc) + enc)
     max avail g pts inp decerr deliv g' out,
   glue_write P encode max avail g pts inp decerr deliv = GOk g' out -> has_enc g' = true ->
   (has_enc g = true -> g'.(g_off) = g.(g_off))
@@ -227,7 +227,7 @@ Print Assumptions C23_glue_offset.
 (* sequence numbers through the glue: consecutive (mod 2^16) from the effective encoder's next number (the
    existing encoder's, or the first oversized packet's own number), one SSRC, and the encoder kept in the state
    continues right after them - for every encoder whose calls satisfy enc_post0 *)
-Theorem C23_glue_seq_generic : forall (P : Type) (encode : enc -> P -> res (list packet * enc) + unit),
+Theorem C23_glue_seq_generic : forall (P : Type) (encode : enc -> P -> res (list packet * enc) + enc),
   (forall e p pkts e', encode e p = inl (Ok (pkts, e')) -> enc_post0 e pkts e') ->
   forall max avail g pts inp decerr deliv g' out,
   glue_write P encode max avail g pts inp decerr deliv = GOk g' out -> has_enc g' = true ->
@@ -238,7 +238,7 @@ Proof. exact glue_seq_gen. Qed.
 Print Assumptions C23_glue_seq_generic.
 
 (* size through the glue: lo = the encoder's lower bound on PayloadMaxSize, pre = its precondition on the unit *)
-Theorem C23_glue_size_generic : forall (P : Type) (encode : enc -> P -> res (list packet * enc) + unit),
+Theorem C23_glue_size_generic : forall (P : Type) (encode : enc -> P -> res (list packet * enc) + enc),
   (forall e p pkts e', encode e p = inl (Ok (pkts, e')) -> enc_post0 e pkts e') ->
   forall (lo : Z) (pre : Z -> P -> Prop),
   (forall e p pkts e', lo <= e.(e_max) -> pre e.(e_max) p -> encode e p = inl (Ok (pkts, e')) ->
@@ -252,7 +252,7 @@ Proof. exact glue_size_gen. Qed.
 Print Assumptions C23_glue_size_generic.
 
 (* timestamps through the glue: Timestamp = (what the encoder set) + rtpTimeOffset + uint32(PTS) mod 2^32 *)
-Theorem C23_glue_ts_generic : forall (P : Type) (encode : enc -> P -> res (list packet * enc) + unit)
+Theorem C23_glue_ts_generic : forall (P : Type) (encode : enc -> P -> res (list packet * enc) + enc)
     (tslaw : Z -> P -> list Z -> Prop),
   (forall e p pkts e', encode e p = inl (Ok (pkts, e')) -> tslaw e.(e_max) p (map p_ts pkts)) ->
   forall max avail g pts inp decerr p g' out,
@@ -264,7 +264,7 @@ Proof. exact glue_ts_gen. Qed.
 Print Assumptions C23_glue_ts_generic.
 
 (* round trip through the glue, for any decoder (state D, run function, clean predicate) *)
-Theorem C23_glue_roundtrip_generic : forall (P : Type) (encode : enc -> P -> res (list packet * enc) + unit)
+Theorem C23_glue_roundtrip_generic : forall (P : Type) (encode : enc -> P -> res (list packet * enc) + enc)
     (lo : Z) (D : Type) (drun : D -> list packet -> list dout * D) (cleanD : D -> Prop) (hi : Z)
     (okp : Z -> P -> Prop) (good : P -> list dout -> Prop),
   (forall e p pkts e' d delta,
